@@ -23,6 +23,9 @@ CHECKS = {
     "C06": ("exploration", "runtime monitoring: link-time interposers observe what reaches timerfd_create/timerfd_settime/epoll_ctl; online shadow-state monitor on the owning pool thread judges every callback of random add/enable/disable/delete/ready/close histories; ASan+UBSan and TSan builds",
             "Held on the cases explored: every (value, unit, relative/absolute, periodic/one-shot/dispatch) timer request incl. unit boundaries must program exactly the equivalent itimerspec/clock; every malformed registration (flag/filter/ident/NULL combinations) must be refused without reaching the kernel and well-formed ones installed; hundreds of seeded histories over pipes, socketpairs (incl. half-close), timers and child processes, where a callback contradicting the shadow state (disabled, deleted, one-shot already fired, dispatch not re-enabled, wrong EOF flag) is a violation when it happens and expected firings are bounded-progress checked.",
             TP_NOTE + "; cross-thread enable/disable is not gated; absolute periodic interval not asserted", "DESIGN.md 4 C06"),
+    "C16": ("exploration", "runtime monitoring: real I/O tasks over socketpairs/loopback with a feeder/drainer peer; callback-boundary monitor (window cursors, canaries in an exact-size heap buffer, stop/pause shadow flags) plus offline byte-stream comparison; ASan+UBSan and TSan builds",
+            "Held on the scenarios explored: read/recv tasks must hand over exactly the fed byte stream through the buffer windows (every window position/size incl. 1-byte, persistent/dispatch/one-shot, callback-after-every-read, direct first I/O), with cursors advanced by exactly the transferred amount and nothing written outside the window; end of stream once; timeouts once for a 10x gap and never for gaps <= T/20; nothing after stop/destroy on the owning thread, nothing while a dispatch task is paused; write/send tasks must deliver exactly the window to a slow peer through a tiny send buffer and complete once; packet receiver and accept tasks are counted.",
+            TP_NOTE + "; regular-file pread/pwrite and socket resets are not driven (see evidence assumptions)", "DESIGN.md 4 C16"),
     "C15": ("exploration", "runtime monitoring: library-built DNS/RADIUS messages executed under ASan+UBSan in exact-size buffers, every observation compared with independent RFC 1035/6891 and RFC 2865/2869 reference encoders (hashlib MD5/HMAC)",
             "Held on the cases explored: DNS build sequences compared byte-for-byte with a reference encoder, validated and parsed back; name/label round trips with buffer sizes swept around the need; RADIUS build/sign/verify against reference authenticators, password hiding at every 16-octet edge 0..128, wrong secrets and single-octet corruptions of signed packets (all octets x 3 masks in thorough) judged by what RFC processing must detect.",
             "trusted: Python hashlib/hmac, the reference encoders (self-tested on RFC 2865 7.1 packets and RFC 2202 vectors in setup); names outside 1..253 octets and attributes whose semantics the library does not document are recorded but not judged",
